@@ -204,6 +204,10 @@ pub enum Op {
     Clock(Option<u64>),
     /// take a reference to the event with this id (C15), by id lookup
     TakeRef(B32),
+    /// get_event_by_id (a reader op of the concurrent mode)
+    Get(B32),
+    /// has_event (a reader op of the concurrent mode)
+    Has(B32),
     /// the NEXT op is killed at its k-th kill point and the run continues from the
     /// durable state of that instant (crash mode)
     Crash(u32),
@@ -232,6 +236,8 @@ impl Op {
             Op::ExtraDel(..) => "extra_del",
             Op::Clock(_) => "clock",
             Op::TakeRef(_) => "take_ref",
+            Op::Get(_) => "get",
+            Op::Has(_) => "has",
             Op::Crash(_) => "crash",
             Op::Fail(_) => "fail",
         }
@@ -522,6 +528,8 @@ impl Op {
             Op::ExtraDel(t, k) => format!("extra_del t={} k={}", t, enc_bytes(k)),
             Op::Clock(c) => format!("clock now={}", enc_opt(*c)),
             Op::TakeRef(id) => format!("take_ref id={}", hex(id)),
+            Op::Get(id) => format!("get id={}", hex(id)),
+            Op::Has(id) => format!("has id={}", hex(id)),
             Op::Crash(k) => format!("crash k={k}"),
             Op::Fail(k) => format!("fail k={k}"),
         }
@@ -550,6 +558,8 @@ impl Op {
             "extra_del" => Op::ExtraDel(kv.get("t")?.parse().map_err(e)?, dec_bytes(kv.get("k")?)?),
             "clock" => Op::Clock(dec_opt(kv.get("now")?)?),
             "take_ref" => Op::TakeRef(unhex32(kv.get("id")?)?),
+            "get" => Op::Get(unhex32(kv.get("id")?)?),
+            "has" => Op::Has(unhex32(kv.get("id")?)?),
             "crash" => Op::Crash(kv.get("k")?.parse().map_err(e)?),
             "fail" => Op::Fail(kv.get("k")?.parse().map_err(e)?),
             x => return Err(format!("unknown op {x}")),
@@ -563,6 +573,8 @@ impl Op {
             Op::Vanish(pk) => format!("vanish pk={}", short(pk)),
             Op::Query(q) => format!("query {}", q.brief()),
             Op::TakeRef(id) => format!("take_ref {}", short(id)),
+            Op::Get(id) => format!("get {}", short(id)),
+            Op::Has(id) => format!("has {}", short(id)),
             other => other.to_text(),
         }
     }
